@@ -379,6 +379,9 @@ fn run_case(cfg: &Value, case: &Value, ln: usize) -> (Vec<Mismatch>, Value, Vec<
             "AttemptEnd" => sched.step("recv", Cmd::Outcome(o["outcome"].as_str().unwrap().to_string(), items_of(&o["rem"])), STEP_TIMEOUT),
             "Kill" => sched.step("recv", Cmd::Kill, STEP_TIMEOUT),
             "CbReturn" => sched.step("recv", Cmd::Go, STEP_TIMEOUT),
+            // the async send does not suspend when its trigger has already fired (try_recv): it is
+            // then already parked before its next try_send and the wake-up is not a step of its own
+            "SendWake" if sched.status(who) == Some(Status::Parked("try_send")) => sched.status(who),
             _ => sched.step(who, Cmd::Go, STEP_TIMEOUT),
         };
         // probe: every async flush that is waiting is re-polled, so a completion the moment it
